@@ -81,6 +81,8 @@ pub struct BasicOpts {
     pub keepalive_rate: u32,
     /// idle timeouts to draw from when `idle_off` is false (per side)
     pub idle_choices: Vec<Option<u64>>,
+    /// clients pad every 1-RTT datagram to the MTU (room for the tap to overwrite plaintext)
+    pub force_client_pad: bool,
 }
 
 impl Default for BasicOpts {
@@ -120,6 +122,7 @@ impl Default for BasicOpts {
             directed_max: 2,
             keepalive_rate: 0,
             idle_choices: vec![Some(30_000)],
+            force_client_pad: false,
         }
     }
 }
@@ -177,6 +180,9 @@ impl Basic {
             if w.ch.chance("basic.keepalive", opts.keepalive_rate, 1000) {
                 k.keep_alive_ms = Some(*w.ch.pick("basic.keepalive_ms", &[1000u64, 10, 100, 5000]));
             }
+        }
+        if opts.force_client_pad {
+            ck.pad_to_mtu = true;
         }
         if opts.directed_k > 0 {
             let n = 1 + w.ch.choose("basic.directed_n", opts.directed_max);
